@@ -866,8 +866,8 @@ def sig_d9(case, obs, fail):
 
 def sig_d10(case, obs, fail):
     x = _ctx(case, obs, fail)
-    if not x or not (x["spec"]["cfg_path"] or x["spec"]["cfg_files"]):
-        return False
+    if not x or not x["spec"]["cfg_path"]:
+        return False  # (constructor config_path= files are re-applied by every call, print_help included: nothing known)
     if not (x["before"].get("pre") or x["before"].get("cfg_reg")):
         earlier_files = any(x["ops"][j]["op"] == "parse" and any(a.endswith(".json") for a in x["ops"][j]["argv"]) for j in x["mine"])
         if not earlier_files:
@@ -906,12 +906,17 @@ FINDINGS = {
 
 
 def _valid(ops):
-    alive = set()
+    """every call addresses a constructed parser, no destination is registered twice on one parser, some parse exists"""
+    dests = {}
     for op in ops:
         if op["op"] == "construct":
-            alive.add(op["i"])
-        elif op["i"] not in alive:
+            dests[op["i"]] = set()
+        elif op["i"] not in dests:
             return False
+        elif op["op"] == "add":
+            if op["dest"] in dests[op["i"]]:
+                return False
+            dests[op["i"]].add(op["dest"])
     return any(op["op"] == "parse" for op in ops)
 
 
